@@ -154,7 +154,7 @@ CHECKS = {
         engine="comp",
         category="exploration",
         technique="property testing of transport-parameter parsing/validation against an RFC 9000 section 7.3/7.4/18.2 reference decoder, exhaustive over single-clause violations x role x arrival order",
-        text="Wire blobs are built from a generated description (each id present/absent/duplicated, values at and one beyond each bound, role-inappropriate, unknown and grease ids, malformed bodies, CID values equal/differing/other length); parse_from_bytes must return a TransportParameter error iff a clause of the reference is violated and never panic; ArcParameters must become ready iff both the first packet and the TLS extension were processed and the declared CIDs equal the observed ones (both arrival orders, both roles); negotiated idle timeout and 0-RTT acceptance are compared with the model. 7.3k single-deviation cases exhaustively + 930k random (quick) / 16.6M (thorough).",
+        text="Wire blobs are built from a generated description (each id present/absent/duplicated, values at and one beyond each bound, role-inappropriate, unknown and grease ids, malformed bodies, CID values equal/differing/other length); parse_from_bytes must return a TransportParameter error iff a clause of the reference is violated and never panic; ArcParameters must become ready iff both the first packet and the TLS extension were processed and the declared CIDs equal the observed ones (both arrival orders, both roles); negotiated idle timeout and 0-RTT acceptance are compared with the model. 7.3k single-deviation cases exhaustively + 930k random (quick) / 16.6M (thorough). Connection-level stage resumed-0rtt (binary c18e, evidence merged): 2k (60k thorough) runs of two lives of one server over simnet with a shared TLS session storage and 0-RTT enabled: the client learns a ticket with parameters a, the server restarts with parameters b (each of the six 0-RTT relevant limits generated smaller / equal / larger), the client resumes, opens streams and writes early data before seeing anything from the server, then runs more echo streams than the limits allow at once: the connection must not be ended by either side and every echo must complete intact (the decision is taken in ClientTlsSession::try_process_ee, which only a resumed handshake reaches).",
         note="Component level only; the handshake-level verdict is exercised by the C02 simnet runs with valid parameters. Duplicate parameters and max_udp_payload_size > 65527 are tolerated either way (RFC leaves it open).",
         design_ref="DESIGN.md §3 C18",
     ),
